@@ -79,17 +79,17 @@ func vGenTable(name string, k int, L int, spare int) FeatureSlice {
 			ff[i] = Feature{key, loc, vFeatTag(i)}
 			continue
 		}
-		nshape := 3
 		if i == 0 {
-			nshape = 1
-		}
-		switch vChoice(name+string(rune('0'+i))+".shape", nshape) {
-		case 0:
-			loc = vGenAtom(name+string(rune('0'+i)), L, 3)
-		case 1:
-			loc = Join(vGenParts(name+string(rune('0'+i)), 2, L, 1)...)
-		default:
-			loc = vGenAtom(name+string(rune('0'+i)), L, 1).Complement()
+			loc = Range(0, L)
+		} else {
+			switch vChoice(name+string(rune('0'+i))+".shape", 3) {
+			case 0:
+				loc = vGenAtom(name+string(rune('0'+i)), L, 1)
+			case 1:
+				loc = Join(Range(0, 1), PartialRange(L-1, L, Partial3))
+			default:
+				loc = vGenAtom(name+string(rune('0'+i)), L, 1).Complement()
+			}
 		}
 		ff[i] = Feature{key, loc, vFeatTag(i)}
 	}
@@ -113,7 +113,7 @@ func vC11(op int, hostShape, guestShape, tableSpare int) {
 	hs, gs := vSnapshot(hbuf, hff), vSnapshot(gbuf, gff)
 	i, n := 1, 2
 	if vTier() == 1 {
-		i = vChoice("i", L+1)
+		i = 2 * vChoice("i", 3)
 		n = vChoice("n", 3)
 	}
 	var out Sequence
@@ -143,7 +143,11 @@ func vC11(op int, hostShape, guestShape, tableSpare int) {
 	case 10:
 		out = WithBytes(WithFeatures(WithInfo(host, "x"), gff), gp)
 	case 11:
-		out = WithFeatures(host, Repair(hff))
+		var rep []Feature
+		if vPanics(func() { rep = Repair(hff) }) {
+			return // Repair panicking is C12's subject
+		}
+		out = WithFeatures(host, rep)
 	case 12:
 		out = WithFeatures(host, hff.Filter(Overlap(i, L)))
 	default:
@@ -173,7 +177,7 @@ func vC11(op int, hostShape, guestShape, tableSpare int) {
 }
 
 //verif:harness prop=C11 quick=14 thorough=14 timeout=1200
-//verif:bounds each of 14 operations (insert embed delete erase slice concat reverse rotate complement transcribe with-* repair filter sorted-insert) on a 4-residue host / 2-residue guest with symbolic bytes; aliasing shapes by choice: residues len==cap | spare capacity | sub-slice of a larger buffer (host and guest independently), feature tables with 0 or 2 spare slots; host table 2 features (atom | 2-part join | complement), symbolic coordinates; followed by a second operation on the same arguments
+//verif:bounds each of 14 operations (insert embed delete erase slice concat reverse rotate complement transcribe with-* repair filter sorted-insert) on a 4-residue host / 2-residue guest with symbolic bytes; aliasing shapes by choice: residues len==cap | spare capacity | sub-slice of a larger buffer (host and guest independently), feature tables with 0 or 2 spare slots; quick: concrete coordinates, index 1, length 2; thorough: all 18 aliasing combinations, second feature = symbolic range | join | complement of symbolic range, index in {0,2,4}, length in {0,1,2}; each followed by a second operation on the same arguments
 func VH_C11_purity() {
 	op := vShard(14)
 	hostShape := vChoice("hshape", 3)
